@@ -93,7 +93,11 @@ GcDone   == par.live /\ par.gc # "none" /\ EnvStep([t |-> "gcdone"], [par EXCEPT
 Reconfig == /\ ~Stopped /\ par.live /\ (Beh => ~\E i \in DOMAIN hist : hist[i].t = "reconfig")
             /\ steps < MaxSteps /\ steps' = steps + 1 /\ finOn' = ~finOn /\ hist' = H([t |-> "reconfig", finOn |-> ~finOn])
             /\ last' = Last0 /\ UNCHANGED <<par, kids, fprog, kind, m0, f0>>
-Next == Sync \/ Relabel \/ (\E pol \in {"Background", "Foreground", "Orphan"} : Delete(pol)) \/ GcDone \/ Reconfig
+\* somebody deletes the child (the next sync that manages children brings it back if the answer in force wants it)
+DelKid   == /\ ~Stopped /\ par.live /\ kids /\ steps < MaxSteps /\ steps' = steps + 1 /\ kids' = FALSE
+            /\ (Beh => ~\E i \in DOMAIN hist : hist[i].t = "delkid")
+            /\ hist' = H([t |-> "delkid"]) /\ last' = Last0 /\ UNCHANGED <<par, finOn, fprog, kind, m0, f0>>
+Next == Sync \/ Relabel \/ (\E pol \in {"Background", "Foreground", "Orphan"} : Delete(pol)) \/ GcDone \/ Reconfig \/ DelKid
 Spec == Init /\ [][Next]_vars /\ WF_vars(Sync)
 
 \* ---- properties (design level) --------------------------------------------------------------
